@@ -50,6 +50,8 @@ def values_for(kind, n, draw):
 
 
 class P(Play):
+    WRITE_NONTRIVIAL = True
+
     def invariants(self, ctx, what):
         it, sm = ctx.interp, ctx.sm
         if ctx.extra.get("user_model") is not None and sm.model is not ctx.extra["user_model"]:
@@ -84,26 +86,6 @@ class P(Play):
         if "start_value" in self.cfg:
             self.labels.add("start_value")
         return ctx
-
-    async def op_write(self, step):
-        """external write of a valid value"""
-        ctx = self.main
-        if ctx.interp.state is None:
-            return
-        idx = step["state"] % len(self.spec["states"])
-        v = ctx.interp.svalue(idx)
-        via = step["via"]
-        if via == "model":
-            setattr(ctx.sm.model, self.field, v)
-        elif via == "csv":
-            ctx.sm.current_state_value = v
-        else:
-            ctx.sm.current_state = getattr(ctx.sm, self.spec["states"][idx]["id"])
-        ctx.interp.state = idx
-        self.labels.add("write:" + via)
-        self.nontrivial = True
-        self.check_state(ctx, f"step {self.i} external write of {v!r} via {via}")
-        ctx.H.log.clear()
 
     async def op_write_invalid(self, step):
         ctx = self.main
